@@ -1,7 +1,7 @@
 (* C09 -- write logs: re-applying a prefix of an assignment log is absorbed;
    the parser monad is stable under extension of the input. *)
 From Coq Require Import List ZArith Lia Arith Bool.
-From LJT Require Import model.Suspend model.SuspendMarker.
+From LJT Require Import model.SuspendCore model.SuspendMarker.
 Import ListNotations.
 
 (* ------------------------------------------------------------ list update *)
